@@ -84,10 +84,14 @@ def build_scene(d, rng):
 
     path = os.path.join(d, rng.choice(["scene.geoh5", "scene.v2.geoh5", "my scene é.geoh5", "temp1712.345.geoh5", "UPPER-case_1.geoh5"]))
     ws = Workspace.create(path)
-    grp = ContainerGroup.create(ws, name="grp")
+    # names are free text: empty, "0", "None" are names like any other
+    odd = rng.choice([None, None, "", "0", "None"])
+    grp = ContainerGroup.create(ws, name="grp" if odd is None else odd)
     dh = DrillholeGroup.create(ws, name="dh", parent=grp)
-    a = Points.create(ws, vertices=np.arange(18, dtype=float).reshape(6, 3), parent=grp, name="A")
+    a = Points.create(ws, vertices=np.arange(18, dtype=float).reshape(6, 3), parent=grp, name="A" if odd is None else odd)
     da = a.add_data({"a1": {"values": np.arange(6.0)}, "a2": {"values": np.arange(6.0) * 2}})
+    if odd is not None:
+        da[1].name = odd
     pga = a.add_data_to_group(da, "pgA")
     b = Curve.create(ws, vertices=np.arange(12, dtype=float).reshape(4, 3), name="B")
     db = b.add_data({"b1": {"values": np.arange(4.0)}})
@@ -341,6 +345,11 @@ def run_case(case, rec):
                 switch = [m for m, g in ui.items() if isinstance(g, dict) and grp and g.get("group") == grp and g.get("groupOptional")]
                 if (switch and switch[0] in raw_empty) or f.get("dependency") in raw_empty:
                     raw_empty = raw_empty | {k}
+        def given(f):
+            member = "property" if f.get("isValue") is False else "value"
+            return f.get(member) not in (None, "", [])
+
+        raw_given = {k for k, f in ui.items() if isinstance(f, dict) and given(f)}
         try:
             in_file = InputFile(ui_json=ui)
             before = snapshot(in_file)
@@ -349,6 +358,11 @@ def run_case(case, rec):
                 raise
             rec.see("rejected-at-ingestion")
             rec.see("rejected:" + type(exc).__name__)
+            if type(exc).__name__ == "OptionalValidationError":
+                # "cannot be None": legitimate for a form that holds no value; a form that was given one (an identifier of an
+                # entity of this workspace, a number, a text) has lost it on the way in
+                lost = sorted(k for k in raw_given if f"'{k}'" in str(exc) or str(exc).rstrip(".").endswith(k))
+                rec.check("C14.value", not lost, op="ingest", cls=kinds.get(lost[0], "?") if lost else "", attr="value-lost-at-ingestion", detail=f"{lost}: given a value in the dictionary, refused as None at construction: {exc}")
             rec.shape = ["rejected", shape]
             if case.get("empty"):
                 # the empty string is a value of the string / file form's domain (it is the file template's default)
